@@ -1,7 +1,94 @@
 import CogentModel.Json
-open CogentModel
+import CogentModel.Model.View
+import CogentModel.Model.RichDict
+import CogentModel.Spec.PySlice
+open CogentModel CogentModel.View CogentModel.RichDict
 
-def handle (cmd : String) (_j : J) : Except String J :=
-  throw s!"unknown command {cmd}"
+def errStr10 : Err → String
+  | .valueError => "ValueError"
+  | .indexError => "IndexError"
+  | .assertionError => "AssertionError"
+
+def exJ10 {α} (f : α → J) : Except Err α → J
+  | .ok a => f a
+  | .error e => J.obj [("err", J.str (errStr10 e))]
+
+def viewJ10 (v : View) : J :=
+  J.obj [("start", J.num v.start), ("stop", J.num v.stop), ("step", J.num v.step),
+         ("offset", J.num v.offset), ("seq_len", J.num v.seqLen),
+         ("parent_start", exJ10 J.num (parentStart v)), ("parent_stop", exJ10 J.num (parentStop v))]
+
+def pairJ (r : List Int × View) : J :=
+  J.obj [("seq", J.arr (r.1.map J.num)), ("view", viewJ10 r.2), ("value", J.arr ((realise r.1 r.2).map J.num))]
+
+def parseView (j : J) : Except String View := do
+  pure { start := ← (← j.get "start").toInt, stop := ← (← j.get "stop").toInt,
+         step := ← (← j.get "step").toInt, offset := ← (← j.get "offset").toInt,
+         seqLen := ← (← j.get "seq_len").toInt }
+
+def optList (j : J) : Except String (Option (List Int)) :=
+  match j with
+  | .null => pure none
+  | _ => do pure (some (← j.toListOf J.toInt))
+
+def indelJ (m : RichDict.IndelMap) : J :=
+  J.obj [("gap_pos", J.arr (m.gapPos.map J.num)), ("cum_gap_lengths", J.arr (m.cumGapLengths.map J.num)),
+         ("termini_unknown", J.bool m.terminiUnknown), ("parent_length", J.num m.parentLength)]
+
+def parseSpan (j : J) : Except String SpanArgs := do
+  match j.get? "length" with
+  | some l => pure (.lost (← l.toInt))
+  | none =>
+    pure (.span (← (← j.get "start").toInt) (← (← j.get "end").toOptInt) (← (← j.get "tidy_start").toBool)
+      (← (← j.get "tidy_end").toBool) (← (← j.get "reverse").toBool))
+
+def spanStateJ : SpanState → J
+  | .span s e ts te r => J.obj [("start", J.num s), ("end", J.num e), ("tidy_start", J.bool ts),
+      ("tidy_end", J.bool te), ("reverse", J.bool r)]
+  | .lost l => J.obj [("length", J.num l)]
+
+def fstateJ (s : FeatureState) : J :=
+  J.obj [("spans", J.arr (s.spans.map spanStateJ)), ("parent_length", J.num s.parentLength), ("length", J.num s.length)]
+
+def handle (cmd : String) (j : J) : Except String J :=
+  match cmd with
+  | "rebase" => do
+    -- parent is the list 0..n-1 (positions), so the reply names parent positions
+    let n ← (← j.get "n").toNat
+    let parent : List Int := (List.range n).map fun (i : Nat) => (i : Int)
+    let v ← parseView j
+    match ← (← j.get "path").toStr with
+    | "view_rich" =>
+      let r := toRich parent v
+      pure (J.obj [("seq", J.arr (r.seq.map J.num)), ("step", J.num r.step)])
+    | "dataview_rich" =>
+      let r := toRichDataView parent v
+      pure (J.obj [("seq", J.arr (r.seq.map J.num)), ("step", J.num r.step), ("offset", J.ofOptInt r.offset)])
+    | "view_from_rich" => pure (exJ10 pairJ (fromRich (toRich parent v)))
+    | "old" => pure (exJ10 pairJ (seqRoundtripOld parent v))
+    | "copy_old" => pure (exJ10 pairJ (seqCopyOld parent v))
+    | "new" => pure (exJ10 pairJ (seqRoundtripNew parent v))
+    | "view_copy_new" => pure (exJ10 pairJ (viewCopyNew parent v))
+    | "copy_new" => pure (exJ10 pairJ (seqCopyNew parent v))
+    | "dataview" => pure (exJ10 pairJ (seqRoundtripDataView parent v))
+    | p => throw s!"bad path {p}"
+  | "indel" => do
+    let r := RichDict.IndelMap.mk' (← (← j.get "gap_pos").toListOf J.toInt) (← optList (← j.get "cum"))
+      (← optList (← j.get "lengths")) (← (← j.get "termini_unknown").toBool) (← (← j.get "parent_length").toInt)
+    match r with
+    | .error e => pure (J.obj [("err", J.str (errStr10 e))])
+    | .ok m =>
+      let t := m.toRich
+      pure (J.obj [("built", indelJ m),
+        ("rich", J.obj [("gap_pos", J.arr (t.gapPos.map J.num)), ("cum_gap_lengths", J.arr (t.cumGapLengths.map J.num)),
+           ("termini_unknown", J.bool t.terminiUnknown), ("parent_length", J.num t.parentLength)]),
+        ("back", exJ10 indelJ (RichDict.IndelMap.fromRich t))])
+  | "fmap" => do
+    let spans ← (← j.get "spans").toListOf parseSpan
+    let m : RichDict.FeatureMap := { spans := spans, parentLength := ← (← j.get "parent_length").toInt }
+    let b := RichDict.FeatureMap.construct m
+    pure (J.obj [("built", fstateJ b.state), ("json", fstateJ b.roundtripJson.state),
+                 ("pickle", fstateJ b.state.roundtripPickle)])
+  | _ => throw s!"unknown command {cmd}"
 
 def main : IO Unit := driverLoop handle
